@@ -174,7 +174,15 @@ def gen_vm_program(rnd, size):
         root.append({'expr': {'name': 'pp', 'expr': call_expr('systemPartial', V(rnd.choice(funcs)), {'number': float(rnd.randint(0, 2))})}})
         partial[0] = True
     root += block(rnd.randint(2, 4 + size), 0, False)
-    if rnd.random() < 0.3:
+    if rnd.random() < 0.15 and len(files) < 5:
+        # the run ENDS with the include of a file that only defines functions (a library): each definition is a statement of the run
+        name = 'lib%d.bare' % len(files)
+        files[name] = {'statements': [{'function': {'name': 'lib%d_%d' % (len(files), j), 'args': ['a1'], 'statements': [c08.log_stmt(tag('libfn')), {'return': {'expr': V('a1')}}]}}
+                                       for j in range(rnd.randint(1, 4))]}
+        root.append({'include': {'includes': [{'url': name}] * rnd.choice([1, 1, 2])}})
+        classes.add('include')
+        classes.add('run-ends-with-functions-only-include')
+    elif rnd.random() < 0.3:
         root.append({'return': {'expr': V('n')}})
     return {'statements': root}, files, classes
 
